@@ -1,4 +1,13 @@
 ---------------------------- MODULE Graph ----------------------------
+(* C05: pkg/scheduler/graph.go AddStage / addEdge / cycleDfs, and the declaration order *)
+(* in which internal/config/pipeline.go feeds stages to it.                             *)
+(* Two definitions of "has a cycle" are compared over the whole bounded domain:         *)
+(*   Cyclic   - intended: some stage reaches itself in the depends_on relation;         *)
+(*   ImplErr  - implementation-shaped: stages added in declaration order, every         *)
+(*              dependency edge inserted and followed by the DFS of graph.go.           *)
+(* ImplErr(FALSE) transcribes the detector of the pinned tree (visited set only; it     *)
+(* reports re-convergent DAGs as cyclic - kept as a negative control), ImplErr(TRUE)    *)
+(* the repaired one (on-path set + finished set), which is what the code is bound to.   *)
 EXTENDS Naturals, FiniteSets, Sequences, TLC
 CONSTANT N
 Nodes == 1..N
@@ -48,4 +57,16 @@ Init == deps \in [Nodes -> SUBSET Nodes] /\ ord \in Perms
 Next == UNCHANGED vars
 IffPinned == ImplErr(FALSE) = Cyclic
 IffFixed  == ImplErr(TRUE) = Cyclic
+
+\* "An accepted pipeline exposes exactly the declared dependency edges"
+\* (To(s) lists the dependencies of s in declaration order, From(d) the dependants of d)
+RECURSIVE FinalFrom(_, _)
+FinalFrom(from, i) ==
+   IF i > N THEN from
+   ELSE LET s == ord[i]
+            RECURSIVE Add(_, _)
+            Add(f, ds) == IF ds = <<>> THEN f ELSE Add([f EXCEPT ![Head(ds)] = Append(@, s)], Tail(ds))
+        IN FinalFrom(Add(from, SetToSeq(deps[s])), i + 1)
+Range(q) == {q[i] : i \in DOMAIN q}
+EdgesExact == ~Cyclic => \A d \in Nodes : Range(FinalFrom([n \in Nodes |-> <<>>], 1)[d]) = {s \in Nodes : d \in deps[s]}
 =======================================================================
